@@ -88,7 +88,7 @@ func handshake(cfg *oidcv1.OIDCConfig, pool internal.TLSConfigPool, addr string)
 	if err != nil {
 		return false
 	}
-	cl.Timeout = 2 * time.Second
+	cl.Timeout = 15 * time.Second
 	defer cl.CloseIdleConnections()
 	resp, err := cl.Get("https://" + addr + "/")
 	if err != nil {
@@ -180,10 +180,10 @@ func runTLSScenario(rec *recorder, id string, events []tlsEvent, cas map[string]
 			}
 			dirty = true
 		case "wait":
-			// let the refresh interval elapse: bounded polling until the observation changes, at most 60 intervals.
+			// let the refresh interval elapse: bounded polling until the observation changes, at most 200 intervals.
 			// When nothing can change (no rewrite since the last wait, or no refreshing file configuration) three intervals do.
 			before, _ := json.Marshal(observe())
-			deadline := time.Now().Add(60 * tlsInterval)
+			deadline := time.Now().Add(200 * tlsInterval)
 			time.Sleep(3 * tlsInterval)
 			if !dirty || !refreshing {
 				deadline = time.Now()
